@@ -112,7 +112,7 @@ def build_impl(spec: dict):
         for c in ptgen.children(node):
             go(c)
         via = node.get('via')
-        if via:
+        if via and via_is_sound(node):
             if node.get('id') or node.get('meas') or node.get('cons'):
                 raise core.MachineryError('helper constructors take no identifier / measurements / constraints')
             node['_pt'] = _build_via(node, via)
@@ -154,6 +154,28 @@ def as_iterable(items: list, how: str):
     return list(items)
 
 
+def via_is_sound(node: dict) -> bool:
+    """is the helper call on this node equivalent to the explicit nesting the Lean side sees (same declared names, same
+    outcome for every assignment) on the unchanged code?  Not so for
+    * `ParallelChannelPT(.., {c: e}).with_parallel_channels({c: e2})` on an anonymous inner template: the helper merges the
+      two dictionaries, the outer value wins and `e` -- with its parameters -- disappears, while the explicit nesting still
+      evaluates (and declares) `e`: the helper result legitimately needs FEWER parameters;
+    * a repetition folded into a repetition with a count that may be <= 0 (the explicit nesting then never visits the
+      inner node, the folded node validates its constraints).
+    Such nodes are built explicitly."""
+    k = node['k']
+    if k == 'par':
+        b = node['body']
+        if b['k'] == 'par' and not b.get('id'):
+            inner = {ptgen.chan_atom(c) for c, _ in b['over']}
+            outer = {ptgen.chan_atom(c) for c, _ in node['over']}
+            if inner & outer:
+                return False
+    if k == 'rep' and node['body']['k'] == 'rep' and str(node['count']) not in ('1', '2', '3'):
+        return False
+    return True
+
+
 def apply_helpers(rng: random.Random, spec: dict, p: float, wrap_p: float) -> None:
     """mark undecorated composite nodes as built through the helper API; repeat some repetitions once more through
     `with_repetition` / `**` (the inner one mostly without identifier and measurements, so that the helper folds the two
@@ -177,6 +199,8 @@ def apply_helpers(rng: random.Random, spec: dict, p: float, wrap_p: float) -> No
                 # validates) -- both are right for their tree, so only positive literal counts are folded here
                 continue
             node['via'] = rng.choice(VIA[k])
+            if not via_is_sound(node):
+                del node['via']
 
 
 def has_nested_map(spec: dict) -> bool:
